@@ -16,13 +16,14 @@ DKG_ASSUME = [
 
 PROPS = {
     "C04": dict(
-        mc=[dict(tla="TssDkg_MC.tla", cfg="TssDkg_MC.cfg", tier="quick", timeout=300),
-            dict(tla="TssDkg_MC.tla", cfg="TssDkg_MC_alg.cfg", tier="quick", timeout=300),
-            dict(tla="TssDkg_MC.tla", cfg="TssDkg_MC_exp.cfg", tier="quick", timeout=300),
+        mc=[dict(tla="TssDkg_MC.tla", cfg="TssDkg_MC.cfg", tier="quick", timeout=600),
+            dict(tla="TssDkg_MC.tla", cfg="TssDkg_MC_alg.cfg", tier="quick", timeout=600),
+            dict(tla="TssDkg_MC.tla", cfg="TssDkg_MC_exp.cfg", tier="quick", timeout=600),
             dict(tla="TssDkg_MC.tla", cfg="TssDkg_MC_n4.cfg", tier="thorough", timeout=1500),
             dict(tla="TssDkg_MC.tla", cfg="TssDkg_MC_t3.cfg", tier="thorough", timeout=1500),
             dict(tla="TssDkg_MC.tla", cfg="TssDkg_MC_dev3.cfg", tier="thorough", timeout=1500),
-            dict(tla="TssDkg_MC.tla", cfg="TssDkg_MC_alg7.cfg", tier="thorough", timeout=1500)],
+            dict(tla="TssDkg_MC.tla", cfg="TssDkg_MC_alg2.cfg", tier="thorough", timeout=1500),
+            dict(tla="TssDkg_MC.tla", cfg="TssDkg_MC_alg3.cfg", tier="thorough", timeout=1500)],
         gen=dict(tla="TssDkg_Gen.tla", cfg="TssDkg_Gen.cfg", depth=30, num=dict(quick=250, thorough=4000), timeout=900),
         drive=dict(family="dkg", nrand=dict(quick=300, thorough=6000)),
         trace=dict(tla="TssDkg_Trace.tla", cfg="TssDkg_Trace_C04.cfg"),
